@@ -29,6 +29,7 @@ def tiny_configs(wide: bool = False) -> List[dict]:
     C.append(config(8, [view("chain", 0, slen=2, lst=[2, 0, 3])]))             # fragmented file
     C.append(config(9, [view("chain", 0, slen=3, lst=[1, 0])]))
     C.append(config(8, [view("chain", 0, slen=2, lst=[1])]))
+    C.append(config(12, [view("chain", 0, slen=2, lst=[4, 0, 3, 1, 5])]))      # one read can span 5 scattered sectors
     C.append(config(12, [view("mdf", 0, size=6, slen=2, hdr=1, tail=1)]))      # MODE1/2352 scaled to 1+2+1
     C.append(config(6, [view("rev", 0, size=6, width=2)]))
     C.append(config(6, [view("rev", 0, size=4, width=1)]))
@@ -69,7 +70,7 @@ def short_configs() -> List[dict]:
 def medium_configs() -> List[dict]:
     """Sector length 16, reads spanning several boundaries (used with -simulate)."""
     C = []
-    X = (15, 16, 17, 32, 33, 48)
+    X = (15, 16, 17, 32, 33, 48, 64, 65)
     C.append(config(160, [view("chain", 0, slen=16, lst=[7, 2, 9, 0, 5])], extra=X))
     C.append(config(160, [view("chain", 0, slen=16, lst=[7, 2, 9, 0, 5]), view("wrap", 1, size=70), view("off", 2, size=50, off=14)], extra=X))
     C.append(config(200, [view("mdf", 0, size=160, slen=16, hdr=2, tail=2), view("off", 1, size=128, off=16),
